@@ -266,6 +266,8 @@ def _apply_event(ctx: Ctx, ev: dict) -> None:
             w.knobs["write_raises_now"] = ev.get("always", False)
         elif kind == "mdns":
             _deliver_mdns(ctx, ev)
+        elif kind == "knob":
+            w.knobs[ev["name"]] = ev.get("value")
         else:
             raise HarnessError(f"unknown fault {kind}")
     elif do == "poke":
@@ -1026,3 +1028,70 @@ async def _s_unsub(ctx: Ctx, a: Actor, st: dict) -> Any:
     if u is None:
         return "no-subscription"
     u()
+
+
+# ----------------------------------------------------------------------------------------
+# resolver / zeroconf manager (C20)
+# ----------------------------------------------------------------------------------------
+
+
+@step("zm.new")
+async def _zm_new(ctx: Ctx, a: Actor, st: dict) -> Any:
+    L = ctx.L
+    sup = st.get("supplied")
+    inst = None
+    if sup == "zeroconf":
+        inst = FakeZeroconf("app")
+    elif sup == "async":
+        inst = FakeAsyncZeroconf(zc=FakeZeroconf("app"))
+    ctx.extra["zm"] = L.zc_mod.ZeroconfManager(inst)
+    ctx.extra["zm_supplied"] = inst
+    return sup
+
+
+@step("zm.get")
+async def _zm_get(ctx: Ctx, a: Actor, st: dict) -> Any:
+    azc = ctx.extra["zm"].get_async_zeroconf()
+    return {"zc": azc.zeroconf.zid, "owner": azc.zeroconf.owner, "closed": azc.zeroconf.closed}
+
+
+@step("zm.set")
+async def _zm_set(ctx: Ctx, a: Actor, st: dict) -> Any:
+    which = st.get("which", "same")
+    sup = ctx.extra.get("zm_supplied")
+    if which == "same" and sup is not None:
+        inst = sup
+    elif which == "same_inner" and sup is not None:
+        inst = sup.zeroconf if isinstance(sup, FakeAsyncZeroconf) else sup
+    elif which == "other_async":
+        inst = FakeAsyncZeroconf(zc=FakeZeroconf("app"))
+    else:
+        inst = FakeZeroconf("app")
+    ctx.extra["zm"].set_instance(inst)
+
+
+@step("zm.close")
+async def _zm_close(ctx: Ctx, a: Actor, st: dict) -> Any:
+    await ctx.extra["zm"].async_close()
+
+
+@step("resolve")
+async def _s_resolve(ctx: Ctx, a: Actor, st: dict) -> Any:
+    L = ctx.L
+    zm = ctx.extra.get("zm")
+    if zm is None:
+        zm = L.zc_mod.ZeroconfManager()
+        ctx.extra["zm"] = zm
+    hosts = list(st["hosts"])
+    port = st.get("port", 6053)
+    tmo = st.get("timeout")
+    if tmo is not None:
+        async with asyncio.timeout(tmo):
+            res = await L.host_resolver.async_resolve_host(hosts, port, zm)
+    else:
+        res = await L.host_resolver.async_resolve_host(hosts, port, zm)
+    out = []
+    for ai in res:
+        sa = ai.sockaddr
+        out.append([int(ai.family), sa.address, sa.port, getattr(sa, "flowinfo", None), getattr(sa, "scope_id", None)])
+    return out
